@@ -367,7 +367,7 @@ if __name__ == "__main__":
         groups.setdefault(u["dir"], []).append(u)
     rc = 0
     for d, g in groups.items():
-        res, log = run_unit_group(g, repo=a.repo, keep=a.keep, only=a.only, tier=a.tier, jobs=a.j, tag="cli-" + re.sub(r"\W", "_", d), replay=a.replay)
+        res, log = run_unit_group(g, repo=a.repo, keep=a.keep, only=a.only, tier=a.tier, jobs=a.j, tag="cli-" + os.environ.get("VERIF_TAG", str(os.getpid())) + "-" + re.sub(r"\W", "_", d), replay=a.replay)
         for l in log: print("#", l)
         for h, r in res.items():
             print(h, r["status"], r.get("reason", ""), "checks=%s" % r.get("checks_total"), "t=%s" % r.get("solver_s"),
